@@ -905,6 +905,19 @@ func (e *Env) RParenKeep() {
 				break
 			}
 		}
+		// … and only for a declaration with exactly one spec: a conjunct len(<specs>) == 1
+		one := false
+		for _, cj := range flatConjuncts(cl.cond) {
+			cj = strings.TrimSpace(cj)
+			if m := strings.TrimSuffix(cj, " == 1"); m != cj && (strings.HasPrefix(m, "len(") || m == "count") {
+				one = true
+			}
+			if m := strings.TrimPrefix(cj, "1 == "); m != cj && strings.HasPrefix(m, "len(") {
+				one = true
+			}
+		}
+		e.Run.Check("R-PAREN", fmt.Sprintf("%s: the parentheses of an import declaration are dropped only when one spec is left", cl.fn), e.Prog.Pos(cl.at), one,
+			"Lparen is cleared when «"+cl.cond+"», which does not say that the declaration has exactly one spec: several specs without parentheses are not a declaration go/printer can print (the restored GenDecl ends at its first spec, the others are printed as if they followed it)")
 		e.Run.Check("R-PAREN", key, e.Prog.Pos(cl.at), hasStart && bad == "",
 			"Lparen is cleared when «"+cl.cond+"», which does not exclude a remaining spec with Start decorations (comments above it): printed without parentheses the comment is detached from the spec — the preamble of import \"C\" is lost and the file no longer builds")
 	}
